@@ -145,4 +145,195 @@ theorem T_description {w : W} {ts : List Tok} (s : Bytes) (h : I false w ts) (hs
       rw [htxt, hn]
       simpa [descTok, hne, hrep, quoteString, List.append_assoc] using h2
 
+/-! ### argument definitions -/
+
+/-- `name: Type = default @dirs` (the part shared by argument definitions and input fields) -/
+theorem T_inputValueCore {w : W} {ts : List Tok} (name : Name) (type : GType) (dflt : Option Value)
+    (dirs : List Directive) (h : I false w ts) (hn : isNameB name = true) (ht : typeOk type = true)
+    (hd : defaultOk dflt = true) (hds : dirs.all dirOk = true) :
+    I false (formatDirectiveList cfg dirs (needPadding
+        (match dflt with
+          | some v => formatValue cfg v (writeWord cfg [61]
+              (formatType cfg type (needPadding (writeStr cfg [58] (noPadding (writeWord cfg name w))))))
+          | none => formatType cfg type (needPadding (writeStr cfg [58] (noPadding (writeWord cfg name w)))))))
+      (ts ++ (tName name :: tP .colon :: printType type ++ printDefault (dflt.map normValue)
+        ++ printDirectives (dirs.map normDir))) := by
+  have hb := blankIndent_of_allBlank hind
+  have h2 := P_nameColon hb name h hn
+  have h3 := T_type hb type (I.free h2) ht
+  cases dflt with
+  | none =>
+    have h4 := T_directiveList hb dirs false (needPadding (formatType cfg type _)) _
+      (I.mk h3 (by simp [tightOf])) hds
+    simpa [printDefault, List.append_assoc] using h4
+  | some v =>
+    have h4 := P_word hb (cfg := cfg) (g := false) (I.mk h3 (by simp [tightOf])) tokText_equals.lexTo
+      (StartOK_false _) (by decide)
+    have h5 := T_value hb v (I.free h4) hd
+    have h6 := T_directiveList hb dirs false (needPadding (formatValue cfg v _)) _
+      (I.mk h5 (by simp [tightOf])) hds
+    simpa [printDefault, List.append_assoc] using h6
+
+/-- `FormatArgumentDefinition` -/
+theorem T_argDef {w : W} {ts : List Tok} (a : ArgDef) (h : I false w ts) (ha : argDefOk a = true) :
+    I false (formatArgumentDefinition cfg a w) (ts ++ printArgDefD descTok (normArgDef cfg a)) := by
+  obtain ⟨desc, name, dflt, type, dirs, pos⟩ := a
+  simp only [argDefOk, Bool.and_eq_true] at ha
+  obtain ⟨⟨⟨⟨hdesc, hname⟩, htype⟩, hdef⟩, hdirs⟩ := ha
+  by_cases hdes : (!desc.isEmpty && !cfg.omitDescription) = true
+  · have h1 := P_newline h
+    have h2 := T_description hind (w := incIndent (writeNewline w)) desc (I.free (by simpa using h1)) hdesc
+    have h3 := T_inputValueCore hind name type dflt dirs h2 hname htype hdef hdirs
+    have h4 := P_newline (w := decIndent _) (g := false) (by
+      unfold I at h3 ⊢; simpa [tightOf] using h3)
+    refine I.free ?_
+    cases dflt <;>
+      simpa [formatArgumentDefinition, hdes, printArgDefD, normArgDef, List.append_assoc] using h4
+  · have e : descTok (normDesc cfg desc) = [] := by
+      simp only [Bool.and_eq_true, Bool.not_eq_true', not_and, Bool.not_eq_false] at hdes
+      by_cases hd0 : desc = []
+      · simp [descTok, normDesc, hd0]
+      · have : desc.isEmpty = false := by cases desc <;> simp_all
+        simp [descTok, normDesc, hdes this]
+    have h3 := T_inputValueCore hind name type dflt dirs h hname htype hdef hdirs
+    cases dflt <;>
+      simpa [formatArgumentDefinition, hdes, printArgDefD, normArgDef, e, List.append_assoc] using h3
+
+/-- the loop of `FormatArgumentDefinitionList`: a comma only after an argument without description -/
+theorem T_argDefs : ∀ (ds : List ArgDef) (w : W) (ts : List Tok), I false w ts → ds.all argDefOk = true →
+    I false (formatArgumentDefinitions cfg ds w) (ts ++ (ds.map (normArgDef cfg)).flatMap (printArgDefD descTok))
+  | [], w, ts, h, _ => by simpa [formatArgumentDefinitions] using h
+  | [d], w, ts, h, hd => by
+    simp at hd
+    simpa [formatArgumentDefinitions] using T_argDef hind d h hd
+  | d :: e :: rest, w, ts, h, hd => by
+    have hb := blankIndent_of_allBlank hind
+    simp only [List.all_cons, Bool.and_eq_true] at hd
+    have h1 := T_argDef hind d h hd.1
+    have h2 : I false (if d.desc.isEmpty = true then writeWord cfg [44] (noPadding (formatArgumentDefinition cfg d w))
+        else formatArgumentDefinition cfg d w) (ts ++ printArgDefD descTok (normArgDef cfg d)) := by
+      split
+      · exact I.free (P_comma hb (g := true) (w := noPadding (formatArgumentDefinition cfg d w))
+          (I.mk h1.glue (by simp [tightOf])))
+      · exact h1
+    have h3 := T_argDefs (e :: rest) _ _ h2 (by simp [hd.2])
+    simpa [formatArgumentDefinitions, List.append_assoc] using h3
+
+/-- `FormatArgumentDefinitionList` -/
+theorem T_argDefList {g : Bool} {w : W} {ts : List Tok} (ds : List ArgDef) (h : I g w ts)
+    (hd : ds.all argDefOk = true) :
+    I g (formatArgumentDefinitionList cfg ds w) (ts ++ printArgDefsD descTok (ds.map (normArgDef cfg))) := by
+  have hb := blankIndent_of_allBlank hind
+  cases ds with
+  | nil => simpa [formatArgumentDefinitionList, printArgDefsD] using h
+  | cons d ds =>
+    have h1 := P_str hb h tokText_parenL.lexTo (StartOK_cons _ _ _ (by decide))
+    have h2 := T_argDefs hind (d :: ds) _ _ (I.free h1) hd
+    have h3 := P_str hb (cfg := cfg) (g := true) (w := noPadding _) (I.mk h2.glue (by simp [tightOf]))
+      tokText_parenR.lexTo (StartOK_cons _ _ _ (by decide))
+    exact I.free (by simpa [formatArgumentDefinitionList, printArgDefsD, List.append_assoc] using h3)
+
+/-! ### fields and enum values -/
+
+/-- what `FormatFieldDefinition` writes for any field: description, name, arguments, type,
+    default value, directives (`printFieldDefD` when there is no default value, `printInputFieldD`
+    when there are no arguments) -/
+def genFieldD (pd : Bytes → List Tok) (f : FieldDef) : List Tok :=
+  pd f.desc ++ tName f.name :: printArgDefsD pd f.args ++ tP .colon :: printType f.type ++ printDefault f.default
+    ++ printDirectives f.dirs
+
+/-- `FormatFieldDefinition` -/
+theorem T_fieldDef {w : W} {ts : List Tok} (f : FieldDef) (h : LexTo w.text ts false) (hf : fieldDefOk f = true) :
+    LexTo (formatFieldDefinition cfg f w).text (ts ++ genFieldD descTok (normFieldDef cfg f)) false := by
+  have hb := blankIndent_of_allBlank hind
+  obtain ⟨desc, name, args, dflt, type, dirs, pos⟩ := f
+  simp only [fieldDefOk, Bool.and_eq_true, Bool.not_eq_true'] at hf
+  obtain ⟨⟨⟨⟨⟨⟨hdesc, hname⟩, hargs⟩, htype⟩, hdef⟩, hdirs⟩, hsup⟩ := hf
+  have hsup' : fieldSuppressed cfg.emitBuiltin name pos = false := by
+    simp only [fieldSuppressed, Bool.not_false, Bool.true_and] at hsup
+    unfold fieldSuppressed
+    rw [Bool.and_assoc, hsup, Bool.and_false]
+  have h1 := T_description hind desc (I.free (g := false) h) hdesc
+  have h2 := P_word hb (cfg := cfg) h1 (tokText_name name hname).lexTo (StartOK_false _) (trimSpace_name _ hname)
+  have h3 := T_argDefList hind (g := true) (w := noPadding (writeWord cfg name (writeDescription cfg desc w))) args
+    (I.mk h2 (by simp [tightOf])) hargs
+  have h4 := P_str hb (cfg := cfg) (g := true) (w := noPadding _) (I.mk h3.glue (by simp [tightOf]))
+    tokText_colon.lexTo (StartOK_cons _ _ _ (by decide))
+  have h5 := T_type hb type (w := needPadding _) (I.free (by simpa using h4)) htype
+  cases dflt with
+  | none =>
+    have h6 := T_directiveList hb dirs false _ _ (I.mk h5 (by simp [tightOf])) hdirs
+    have h7 := P_newline h6
+    simpa [formatFieldDefinition, hsup', genFieldD, normFieldDef, printDefault, List.append_assoc] using h7
+  | some v =>
+    have h6a := P_word hb (cfg := cfg) (g := false) (I.mk h5 (by simp [tightOf])) tokText_equals.lexTo
+      (StartOK_false _) (by decide)
+    have h6b := T_value hb v (I.free h6a) hdef
+    have h6 := T_directiveList hb dirs true _ _ (I.mk h6b (by simp [tightOf])) hdirs
+    have h7 := P_newline h6
+    simpa [formatFieldDefinition, hsup', genFieldD, normFieldDef, printDefault, List.append_assoc] using h7
+
+theorem T_fields : ∀ (fs : List FieldDef) (w : W) (ts : List Tok), LexTo w.text ts false →
+    fs.all fieldDefOk = true →
+    LexTo (fs.foldl (fun w f => formatFieldDefinition cfg f w) w).text
+      (ts ++ (fs.map (normFieldDef cfg)).flatMap (genFieldD descTok)) false
+  | [], w, ts, h, _ => by simpa using h
+  | f :: fs, w, ts, h, hf => by
+    simp only [List.all_cons, Bool.and_eq_true] at hf
+    have h1 := T_fieldDef hind f h hf.1
+    have h2 := T_fields fs _ _ h1 hf.2
+    simpa [List.append_assoc] using h2
+
+/-- `FormatFieldList` -/
+theorem T_fieldList {g : Bool} {w : W} {ts : List Tok} (fs : List FieldDef) (h : I g w ts)
+    (hf : fs.all fieldDefOk = true) :
+    I g (formatFieldList cfg fs w) (ts ++ printBlock (genFieldD descTok) (fs.map (normFieldDef cfg))) := by
+  have hb := blankIndent_of_allBlank hind
+  cases fs with
+  | nil => simpa [formatFieldList, printBlock] using h
+  | cons f fs =>
+    have h1 := P_str hb h tokText_braceL.lexTo (StartOK_cons _ _ _ (by decide))
+    have h2 := P_newline (I.free (g := false) h1)
+    have h3 := T_fields hind (f :: fs) (incIndent (writeNewline (writeStr cfg [123] w))) _ (by simpa using h2) hf
+    have h4 := P_str hb (cfg := cfg) (g := false) (w := decIndent _) (I.free (by simpa using h3))
+      tokText_braceR.lexTo (StartOK_false _)
+    exact I.free (by simpa [formatFieldList, printBlock, List.append_assoc] using h4)
+
+/-- `FormatEnumValueDefinition` -/
+theorem T_enumVal {w : W} {ts : List Tok} (e : EnumValDef) (h : LexTo w.text ts false) (he : enumValOk e = true) :
+    LexTo (formatEnumValueDefinition cfg e w).text (ts ++ printEnumValD descTok (normEnumVal cfg e)) false := by
+  have hb := blankIndent_of_allBlank hind
+  simp only [enumValOk, Bool.and_eq_true] at he
+  have h1 := T_description hind e.desc (I.free (g := false) h) he.1.1
+  have h2 := P_word hb (cfg := cfg) h1 (tokText_name e.name he.1.2).lexTo (StartOK_false _) (trimSpace_name _ he.1.2)
+  have h3 := T_directiveList hb e.dirs false _ _ (I.mk h2 (by simp [tightOf])) he.2
+  have h4 := P_newline h3
+  simpa [formatEnumValueDefinition, printEnumValD, normEnumVal, List.append_assoc] using h4
+
+theorem T_enumVals : ∀ (es : List EnumValDef) (w : W) (ts : List Tok), LexTo w.text ts false →
+    es.all enumValOk = true →
+    LexTo (es.foldl (fun w e => formatEnumValueDefinition cfg e w) w).text
+      (ts ++ (es.map (normEnumVal cfg)).flatMap (printEnumValD descTok)) false
+  | [], w, ts, h, _ => by simpa using h
+  | e :: es, w, ts, h, he => by
+    simp only [List.all_cons, Bool.and_eq_true] at he
+    have h1 := T_enumVal hind e h he.1
+    have h2 := T_enumVals es _ _ h1 he.2
+    simpa [List.append_assoc] using h2
+
+/-- `FormatEnumValueList` -/
+theorem T_enumValueList {g : Bool} {w : W} {ts : List Tok} (es : List EnumValDef) (h : I g w ts)
+    (he : es.all enumValOk = true) :
+    I g (formatEnumValueList cfg es w) (ts ++ printBlock (printEnumValD descTok) (es.map (normEnumVal cfg))) := by
+  have hb := blankIndent_of_allBlank hind
+  cases es with
+  | nil => simpa [formatEnumValueList, printBlock] using h
+  | cons e es =>
+    have h1 := P_str hb h tokText_braceL.lexTo (StartOK_cons _ _ _ (by decide))
+    have h2 := P_newline (I.free (g := false) h1)
+    have h3 := T_enumVals hind (e :: es) (incIndent (writeNewline (writeStr cfg [123] w))) _ (by simpa using h2) he
+    have h4 := P_str hb (cfg := cfg) (g := false) (w := decIndent _) (I.free (by simpa using h3))
+      tokText_braceR.lexTo (StartOK_false _)
+    exact I.free (by simpa [formatEnumValueList, printBlock, List.append_assoc] using h4)
+
 end Gql.Format
